@@ -401,6 +401,9 @@ func (ex *Explorer) runPath(h *HarnessSpec, solver *Solver, prefix []decision, w
 		call(i, nil, token.NoPos, h.Fn, nil)
 	}()
 	out.inconcl = append(out.inconcl, ctx.inconcl...)
+	if ctx.endReason == "return" && len(ctx.violations) > 0 {
+		ctx.endReason = "return after violated assertions"
+	}
 	if wantSample && (ctx.endReason == "return" || strings.HasPrefix(ctx.endReason, "assertion")) {
 		terms := ctx.modelTerms()
 		var evTerms []*Term
